@@ -13,7 +13,7 @@
 #endif
 #define ST_OK(f,r) (0 <= (f)->m_states[r] && (f)->m_states[r] < NSTATE_CAP)
 #define WF_STATES(f) (ST_OK(f,0) && ST_OK(f,1) && ST_OK(f,2) && ST_OK(f,3) && ST_OK(f,4) && ST_OK(f,5) && ST_OK(f,6) && ST_OK(f,7))   /* NR_CAP == 8 */
-#define ACC_INV (0 <= g_region_next && g_region_next <= NR_CAP && 0 <= g_acc && g_acc <= 7 && 0 <= g_ntaken && g_ntaken <= g_region_next + g_internal_tried && (((g_acc & HANDLED_TRUE) != 0) == (g_ntaken > 0)))
+#define ACC_INV ((g_internal_tried == 0 || g_internal_tried == 1) && 0 <= g_region_next && g_region_next <= NR_CAP && 0 <= g_acc && g_acc <= 7 && 0 <= g_ntaken && g_ntaken <= g_region_next + g_internal_tried && (((g_acc & HANDLED_TRUE) != 0) == (g_ntaken > 0)))
 extern const int g_n;                 /* chain length, unbounded (symbolic) */
 extern const _Bool g_first_is_frow;   /* position 0 is the forwarding row to an active submachine (may return any bit set) */
 #define front(s)      (s)
@@ -78,7 +78,7 @@ extern const int nr_regions;          /* symbolic, 1..NR_CAP (array capacity onl
 extern int   g_region_next;           /* next region to be offered the event */
 extern int   g_acc;                   /* OR of the region results so far */
 extern int   g_ntaken;                /* number of regions (plus internal table) reporting a taken transition */
-extern _Bool g_internal_tried;
+extern int   g_internal_tried;     /* int, not _Bool: a havocked _Bool may hold a non-canonical byte in CBMC */
 extern int   g_nt_next;               /* no_transition calls so far */
 extern const _Bool g_is_contained, g_is_completion_event;
 extern const _Bool g_is_event_processable;   /* mpl::has_key<processable_events_internal_table,Event> */
@@ -104,7 +104,7 @@ __CPROVER_requires(g_region_next == nr_regions)                                 
 __CPROVER_requires(!CONSUMED(g_acc))                                                         /*@ob C01.sm-internal-table-only-if-not-consumed */
 __CPROVER_requires(!g_internal_tried && ACC_INV)
 __CPROVER_assigns(g_internal_tried, g_acc, g_ntaken)
-__CPROVER_ensures(g_internal_tried)
+__CPROVER_ensures(g_internal_tried == 1)
 __CPROVER_ensures(0 <= (int)__CPROVER_return_value && (int)__CPROVER_return_value <= 7)
 __CPROVER_ensures(g_acc == (__CPROVER_old(g_acc) | (int)__CPROVER_return_value))
 __CPROVER_ensures(g_ntaken == __CPROVER_old(g_ntaken) + ((((int)__CPROVER_return_value) & HANDLED_TRUE) != 0))
